@@ -186,3 +186,22 @@ Example inv_nontrivial :
   let s := fold_left step [Start; RespOk 0 1 10 0; Start; SubDel 1; Start; RespErr 0; StartDown 0; RespOk 0 1 11 1; Start; RespOk 5 2 7 2] init in
   received s = [(1, 10); (1, 11); (2, 7)] /\ sent_ok s = [[]; []; [(1, 10); (1, 11)]] /\ pending s = [(2, 7)].
 Proof. vm_compute. repeat split. Qed.
+
+
+(* the acknowledgements of a request that failed are sent again with the very next request,
+   together with everything that was waiting, and nothing is left waiting behind it *)
+Theorem failed_resent s k : inflight s <> [] ->
+  let i := pick k (length (inflight s)) in
+  let s' := step (step s (RespErr k)) Start in
+  inflight s' = remove_nth i (inflight s) ++ [pending s ++ nth i (inflight s) []] /\ pending s' = [].
+Proof.
+  intros Hne. cbv zeta. cbn [step]. destruct (inflight s) as [|a l] eqn:E; [congruence|].
+  cbn [inflight pending]. split; reflexivity.
+Qed.
+
+(* a publish call on a transport that is down, and every subscription change, leave the
+   bookkeeping exactly as it was *)
+Theorem down_and_subscription_changes_are_neutral s o :
+  match o with StartDown _ | SubAdd _ | SubDel _ | SubMod _ | SubPub _ => True | _ => False end ->
+  step s o = s.
+Proof. destruct o; cbn; intros H; try contradiction; reflexivity. Qed.
